@@ -2177,8 +2177,17 @@ func (r *Runner) textposDescription() string {
 // at the specified index is a boundary or not. It's just not worth
 // emitting inline code for this logic.
 func (r *Runner) IsBoundary(index int) bool {
+	if r.re.options&RE2 != 0 {
+		// RE2's \b is an ASCII word boundary, like its \w
+		return (index > 0 && isASCIIWordRune(r.Runtext[index-1])) !=
+			(index < r.Runtextend && isASCIIWordRune(r.Runtext[index]))
+	}
 	return (index > 0 && syntax.IsWordChar(r.Runtext[index-1])) !=
 		(index < r.Runtextend && syntax.IsWordChar(r.Runtext[index]))
+}
+
+func isASCIIWordRune(ch rune) bool {
+	return ch == '_' || (ch >= '0' && ch <= '9') || (ch >= 'a' && ch <= 'z') || (ch >= 'A' && ch <= 'Z')
 }
 
 func (r *Runner) IsECMABoundary(index int) bool {
